@@ -136,6 +136,11 @@ struct Model {
     grants: Vec<Grant>,
     edges: Vec<MEdge>,
     policy: Policy,
+    /// secrets whose names are near-duplicates of one another (white space around, ASCII case, NFC/NFD,
+    /// one a prefix of the other) share a family id; they are nevertheless DIFFERENT secrets
+    family: Vec<usize>,
+    /// the same for identity names
+    ident_family: HashMap<String, usize>,
 }
 
 impl Model {
@@ -217,6 +222,17 @@ impl Model {
         best
     }
 
+    /// does `who` hold a sufficient grant on another secret whose name is a near-duplicate of this one?
+    fn near_duplicate_secret_granted(&self, who: &str, secret: usize, at: Instant, need: u8) -> bool {
+        (0..self.family.len()).any(|j| j != secret && self.family[j] == self.family[secret] && self.level(who, j, at, Flags::default()) >= need)
+    }
+
+    /// does an identity whose name is a near-duplicate of `who` hold a sufficient grant on the secret?
+    fn near_duplicate_identity_granted(&self, who: &str, secret: usize, at: Instant, need: u8) -> bool {
+        let Some(f) = self.ident_family.get(who) else { return false };
+        self.ident_family.iter().any(|(other, g)| g == f && other != who && self.level(other, secret, at, Flags::default()) >= need)
+    }
+
     /// why a call that needed `need` was not covered by the model (used for the signature only)
     fn reason(&self, who: &str, secret: usize, at: Instant, need: u8) -> &'static str {
         let mut f = Flags { expired: true, ..Default::default() };
@@ -234,6 +250,12 @@ impl Model {
         f.deleted = true;
         if self.level(who, secret, at, f) >= need {
             return "grant-on-deleted-secret";
+        }
+        if self.near_duplicate_secret_granted(who, secret, at, need) {
+            return "grant-on-near-duplicate-name";
+        }
+        if self.near_duplicate_identity_granted(who, secret, at, need) {
+            return "grant-to-near-duplicate-identity";
         }
         f.no_atten = true;
         if self.level(who, secret, at, f) >= need {
@@ -559,6 +581,14 @@ impl<'a> Prog<'a> {
         self.r.count("decisions_checked", 1);
         self.r.count(&format!("checked[{}]", op), 1);
         let possible = self.model.level(who, secret, t0, Flags::default());
+        if possible < need {
+            if self.model.near_duplicate_secret_granted(who, secret, t0, need) {
+                self.r.count("decisions_through_near_duplicate_of_granted_name", 1);
+            }
+            if self.model.near_duplicate_identity_granted(who, secret, t0, need) {
+                self.r.count("decisions_by_near_duplicate_of_granted_identity", 1);
+            }
+        }
         if ok {
             if possible >= need {
                 self.allowed += 1;
@@ -666,7 +696,23 @@ impl<'a> Prog<'a> {
                     who = self.rng.pick(&members).clone();
                 }
             }
-            return (who, g.secret);
+            // sometimes through a near-duplicate of the granted name / of the holder's name
+            let mut sec = g.secret;
+            if self.rng.chance(1, 4) {
+                let sib: Vec<usize> = (0..self.names.len()).filter(|&j| j != sec && self.model.family[j] == self.model.family[sec]).collect();
+                if !sib.is_empty() {
+                    sec = *self.rng.pick(&sib);
+                }
+            }
+            if self.rng.chance(1, 6) {
+                if let Some(f) = self.model.ident_family.get(&who).copied() {
+                    let sib: Vec<String> = self.actors.iter().filter(|a| **a != who && self.model.ident_family.get(*a) == Some(&f)).cloned().collect();
+                    if !sib.is_empty() {
+                        who = self.rng.pick(&sib).clone();
+                    }
+                }
+            }
+            return (who, sec);
         }
         (self.pick_requester(4), self.pick_secret())
     }
@@ -1673,6 +1719,86 @@ fn key_class(k: &str) -> String {
     }
 }
 
+/// a string that a careless normalisation would identify with `base`: white space around it, other
+/// ASCII case, NFC vs NFD spelling of an accented letter, or one a prefix of the other
+fn near_duplicate(rng: &mut Rng, base: &str) -> String {
+    const WS: &[&str] = &[" ", "\t", "\n", "\u{a0}", "\u{3000}", "\r\n", "  ", "\u{2003}"];
+    for _ in 0..6 {
+        let v = match rng.below(6) {
+            0 => format!("{}{}", base, *rng.pick(WS)),
+            1 => format!("{}{}", *rng.pick(WS), base),
+            2 => {
+                let mode = rng.below(3);
+                base.chars()
+                    .map(|c| match mode {
+                        0 => c.to_ascii_uppercase(),
+                        1 => c.to_ascii_lowercase(),
+                        _ => {
+                            if c.is_ascii_uppercase() {
+                                c.to_ascii_lowercase()
+                            } else {
+                                c.to_ascii_uppercase()
+                            }
+                        }
+                    })
+                    .collect()
+            }
+            3 => {
+                // precomposed vs decomposed spelling
+                if base.contains('é') {
+                    base.replacen('é', "e\u{301}", 1)
+                } else if base.contains('à') {
+                    base.replacen('à', "a\u{300}", 1)
+                } else if base.contains('ü') {
+                    base.replacen('ü', "u\u{308}", 1)
+                } else {
+                    continue;
+                }
+            }
+            4 => {
+                let mut t = base.to_string();
+                t.pop();
+                t
+            }
+            _ => format!("{}{}", base, *rng.pick(CORE_ALPHABET)),
+        };
+        if v != base {
+            return v;
+        }
+    }
+    format!("{} ", base)
+}
+
+/// cores of `variant` that differ bytewise from every known marker core although they are the same
+/// stretch of the name: (tag, core text). Found by applying the variant's transformation to the cores.
+fn core_variants(base: &str, variant: &str, markers: &[Marker]) -> Vec<(&'static str, String)> {
+    let mut out = Vec::new();
+    for m in markers {
+        let core = String::from_utf8_lossy(&m.needles[0].1).to_string();
+        if !base.contains(&core) || variant.contains(&core) {
+            continue;
+        }
+        let cands: Vec<(&'static str, String)> = vec![
+            ("upper", core.to_ascii_uppercase()),
+            ("lower", core.to_ascii_lowercase()),
+            ("swap", core.chars().map(|c| if c.is_ascii_uppercase() { c.to_ascii_lowercase() } else { c.to_ascii_uppercase() }).collect()),
+            ("nfd", core.replacen('é', "e\u{301}", 1)),
+            ("cut", {
+                let mut t = core.clone();
+                t.pop();
+                t
+            }),
+        ];
+        for (k, c) in cands {
+            if c != core && c.len() >= 16 && variant.contains(&c) {
+                out.push((k, c));
+                break;
+            }
+        }
+    }
+    out
+}
+
 fn gen_policy(rng: &mut Rng) -> Policy {
     match rng.below(5) {
         0 | 1 => Policy { admin_limit: 1, write_limit: 2, horizon: 10 },
@@ -1726,16 +1852,40 @@ fn run_program(case_seed: u64, scratch: &std::path::Path, max_ops: usize, r: &mu
     for u in user_names.iter().take(n_users) {
         actors.push(format!("user:{}", u));
     }
+    // identity names with near-duplicates: distinct strings are distinct identities
+    let mut ident_family: HashMap<String, usize> = HashMap::new();
+    let mut n_users = n_users;
+    if rng.chance(1, 2) {
+        let base = actors[rng.below(n_users)].clone();
+        let mut vars = Vec::new();
+        for _ in 0..(1 + rng.below(2)) {
+            let v = near_duplicate(&mut rng, &base);
+            if v != base && !actors.contains(&v) && !vars.contains(&v) {
+                vars.push(v);
+            }
+        }
+        if !vars.is_empty() {
+            ident_family.insert(base.clone(), 0);
+            for v in vars {
+                ident_family.insert(v.clone(), 0);
+                actors.push(v);
+                n_users += 1;
+                r.count("near_duplicate_identities_used", 1);
+            }
+        }
+    }
     let group_names = ["team:devs", "team:ops", "role:审计"];
     for g in group_names.iter().take(n_groups) {
         actors.push(g.to_string());
     }
 
     // secret names: several namespaces, one short name, one with arbitrary UTF-8 around the core
-    let n_secrets = 4 + rng.below(4);
-    let mut names = Vec::new();
+    let n_base = 3 + rng.below(3);
+    let mut names: Vec<String> = Vec::new();
+    let mut family: Vec<usize> = Vec::new();
     let mut markers = Vec::new();
-    for i in 0..n_secrets {
+    for i in 0..n_base {
+        family.push(i);
         if i == 1 && rng.chance(2, 3) {
             // short name: exercised for access decisions, cannot carry an unambiguous marker
             let n = 1 + rng.below(6);
@@ -1761,8 +1911,39 @@ fn run_program(case_seed: u64, scratch: &std::path::Path, max_ops: usize, r: &mu
         let (head, tail) = if ns.is_empty() { (head.replace('/', "|"), tail.replace('/', "|")) } else { (head, tail) };
         names.push(format!("{}{}{}{}", ns, head, core, tail));
     }
+    // near-duplicates of some of those names: distinct strings are distinct secrets (the vault documents
+    // no normalisation of names)
+    for _ in 0..(1 + rng.below(4)) {
+        let b = rng.below(n_base);
+        let v = near_duplicate(&mut rng, &names[b]);
+        if names.contains(&v) {
+            continue;
+        }
+        // a variant that changes the bytes of the searched core (case, NFD) gets its own marker
+        for (k, m) in core_variants(&names[b], &v, &markers) {
+            markers.push(make_marker(true, &format!("name#{}~{}", names.len(), k), &m));
+        }
+        names.push(v);
+        family.push(family[b]);
+        r.count("near_duplicate_names_used", 1);
+    }
+    // empty-ish names, near-duplicates of one another
+    if rng.chance(1, 3) {
+        let fam = names.len();
+        let mut pool = vec!["", " ", "\n", "\u{a0}", "\t "];
+        rng.shuffle(&mut pool);
+        for e in pool.into_iter().take(2 + rng.below(2)) {
+            if !names.iter().any(|n| n == e) {
+                names.push(e.to_string());
+                family.push(fam);
+                r.count("near_duplicate_names_used", 1);
+                r.count("emptyish_names_used", 1);
+            }
+        }
+    }
+    let n_secrets = names.len();
 
-    let model = Model { root: Vault::ROOT.to_string(), exists: vec![false; n_secrets], grants: Vec::new(), edges: Vec::new(), policy };
+    let model = Model { root: Vault::ROOT.to_string(), exists: vec![false; n_secrets], grants: Vec::new(), edges: Vec::new(), policy, family, ident_family };
     let mut p = Prog {
         case_seed,
         rng,
@@ -1885,12 +2066,13 @@ fn main() {
 
     let meta = Meta {
         property: "C14",
-        rule: "one program = one real Vault (own TensorStore; graph engine on the same store in 2/3 of the programs) driven by 30-60 random operations (set/get/get_version/batch_get/list/list_versions/current_version/rotate/rollback/delete/grant/grant_with_permission/grant_with_ttl/revoke/delegate/delegation bursts building small delegation DAGs/revoke_delegation/revoke_delegation_cascading/get_permission/MEMBER- and foreign-edge add/remove/waits past TTLs/rotate_master_key/restart = reopening the vault on the same store and graph with the access model carried across) by root, 3-5 users and 2-3 groups over 4-7 secrets in several namespaces, under a random AttenuationPolicy; every non-root decision is compared with the access model (only-if direction), and, after calling the vault's flush entry point persist_anomaly_profiles (and sometimes create_snapshot), the store image / raw keys+fields / a saved snapshot file / audit records / error messages are searched for the unique 18+ byte cores of all secret names and values. Programs are distinct by the hash of their operation trace; a program is non-trivial when at least 5 decisions were allowed with a grant and at least 5 were denied without one.",
+        rule: "one program = one real Vault (own TensorStore; graph engine on the same store in 2/3 of the programs) driven by 30-60 random operations (set/get/get_version/batch_get/list/list_versions/current_version/rotate/rollback/delete/grant/grant_with_permission/grant_with_ttl/revoke/delegate/delegation bursts building small delegation DAGs/revoke_delegation/revoke_delegation_cascading/get_permission/MEMBER- and foreign-edge add/remove/waits past TTLs/rotate_master_key/restart = reopening the vault on the same store and graph with the access model carried across) by root, 3-5 users and 2-3 groups over 4-10 secrets in several namespaces whose names include near-duplicates of one another (white space around, ASCII case, NFC/NFD, prefix, empty-ish names; also near-duplicate identity names), under a random AttenuationPolicy; every non-root decision is compared with the access model (only-if direction), and, after calling the vault's flush entry point persist_anomaly_profiles (and sometimes create_snapshot), the store image / raw keys+fields / a saved snapshot file / audit records / error messages are searched for the unique 18+ byte cores of all secret names and values. Programs are distinct by the hash of their operation trace; a program is non-trivial when at least 5 decisions were allowed with a grant and at least 5 were denied without one.",
         assumptions: vec![
             "only-if direction only: a refusal the model would have allowed is counted as over_denials, never a violation".into(),
             format!("a TTL grant counts as possibly live until (return of the granting call + ttl + {} ms); decisions inside that window are don't-care", MARGIN.as_millis()),
             "required levels: read/get_version/batch_get/list/list_versions/current_version = Read, overwrite/rotate/rollback = Write, delete and grant* = Admin (as documented on Permission); revoke is executed and its effect modelled but its own authorisation is not judged (the statement is silent)".into(),
             "revoke_delegation(parent, child) takes away what the current (latest) delegate(parent, child, ..) call handed out; revoke_delegation_cascading additionally does so for every delegation record of every agent reachable from the child through delegation records; grants from an earlier, replaced delegate call of the same pair and a cascade started at a pair without a record are not judged".into(),
+            "distinct name strings are distinct secrets / identities (the vault documents no normalisation): a grant on one name confers nothing on a near-duplicate".into(),
             "delegate is modelled by its documented contract: succeeds only if the parent holds at least the delegated level on every secret; the child then holds that level (with the TTL if given)".into(),
             "a group is an entity reached over directed MEMBER edges; edges of other types and MEMBER edges pointing at a secret node confer nothing; distance = MEMBER hops + 1, attenuated by the documented table, nothing at or beyond the horizon".into(),
             "names/values shorter than 16 bytes are exercised but not searched for (a match could be accidental); encodings searched: verbatim, lowercase hex, base64".into(),
@@ -1908,6 +2090,8 @@ fn main() {
                 ("expired_ttl_decisive", args.by_tier(40, 800)),
                 ("at_rest_scans", args.by_tier(400, 8_000)),
                 ("snapshot_files_scanned", args.by_tier(100, 2_000)),
+                ("near_duplicate_names_used", args.by_tier(300, 6_000)),
+                ("decisions_through_near_duplicate_of_granted_name", args.by_tier(150, 3_000)),
                 ("delegations_revoked", args.by_tier(200, 4_000)),
                 ("cascades_over_rejoining_dag", args.by_tier(15, 300)),
                 ("restarts", args.by_tier(100, 2_000)),
